@@ -95,6 +95,15 @@ def run_config(job):
         system = oqupy.System(h0)
     elif cfg["sys"] == "timedep":
         system = oqupy.TimeDependentSystem(lambda t: w0 * sz + wx * np.cos(2 * t) * sx + 0.3 * np.sin(t) * sy)
+    elif cfg["sys"] == "defective":
+        # a decay ladder |2> -> |1> -> |0> with equal rates and a diagonal Hamiltonian: the Liouvillian has Jordan blocks
+        lad1 = np.zeros((d, d), dtype=complex)
+        lad2 = np.zeros((d, d), dtype=complex)
+        lad1[1, 2] = 1.0
+        lad2[0, 1] = 1.0
+        h0 = np.diag(np.linspace(0.3, -0.3, d)).astype(complex)
+        system = oqupy.System(h0, gammas=[0.8, 0.8], lindblad_operators=[lad1, lad2])
+        gam, lop = 0.8, lad1
     else:
         system = oqupy.System(h0, gammas=[gam], lindblad_operators=[lop])
     rho0 = initial_state(d, cfg["init"], rng)
@@ -130,6 +139,9 @@ def run_config(job):
                 chain.add_site_hamiltonian(i, h0 * (1 + 0.1 * i))
             chain.add_nn_hamiltonian(0, sz, sz * 0.7)
             chain.add_nn_hamiltonian(1, sx, sx * 0.5)
+            if cfg["sys"] == "defective":
+                chain.add_site_dissipation(1, lad1, 0.8)
+                chain.add_site_dissipation(1, lad2, 0.8)
             if cfg["sys"] == "dissipative":
                 chain.add_site_dissipation(2, lop, gam)
                 # incoherent hopping: two-site dissipators with non-normal operators on either site
@@ -155,25 +167,25 @@ def run_config(job):
                 ctrl.add_single_site_control(kick, 0, 2, post=True)
                 ctrl.add_single_site_control(damp, 2, NSTEPS - 1, post=True)
             t = oqupy.PtTebd(mps, chain, [pt, None, None], oqupy.PtTebdParameters(dt=DT, order=2, epsrel=EPSREL),
-                             dynamics_sites=[0, 1, (1, 2)], chain_control=ctrl)
+                             dynamics_sites=[0, 1, (1, 2), (0, 2)], chain_control=ctrl)
             if cfg.get("restart"):
                 # continued from the exported chain state (bond dimension > 1, explicit lambdas) at a step without a
                 # pre-measurement control (that combination is C14's known finding)
                 k0 = 3
                 res = t.compute(k0, progress_type="silent")
                 t2 = oqupy.PtTebd(t.get_augmented_mps(), chain, [pt, None, None],
-                                  oqupy.PtTebdParameters(dt=DT, order=2, epsrel=EPSREL), dynamics_sites=[0, 1, (1, 2)],
+                                  oqupy.PtTebdParameters(dt=DT, order=2, epsrel=EPSREL), dynamics_sites=[0, 1, (1, 2), (0, 2)],
                                   chain_control=ctrl, start_step=k0)
                 res2 = t2.compute(NSTEPS, progress_type="silent")
                 norms = list(res["norm"]) + list(res2["norm"])[1:]
-                states = [(a, b, c) for r_ in (res, res2) for a, b, c in
-                          list(zip(r_["dynamics"][0].states, r_["dynamics"][1].states, r_["dynamics"][(1, 2)].states))[
-                              (1 if r_ is res2 else 0):]]
+                states = [(a, b, c, e) for r_ in (res, res2) for a, b, c, e in
+                          list(zip(r_["dynamics"][0].states, r_["dynamics"][1].states, r_["dynamics"][(1, 2)].states,
+                                   r_["dynamics"][(0, 2)].states))[(1 if r_ is res2 else 0):]]
             else:
                 res = t.compute(NSTEPS, progress_type="silent")
                 norms = res["norm"]
-                states = [(a, b, c) for a, b, c in zip(res["dynamics"][0].states, res["dynamics"][1].states,
-                                                       res["dynamics"][(1, 2)].states)]
+                states = [(a, b, c, e) for a, b, c, e in zip(res["dynamics"][0].states, res["dynamics"][1].states,
+                                                             res["dynamics"][(1, 2)].states, res["dynamics"][(0, 2)].states)]
             if ptfile:
                 pt.remove()
         elif cfg["method"] == "gibbs":
